@@ -31,3 +31,145 @@ S.config_hasattr = {}
 S.cls("Context", {}, external=True)
 c = S.ext("Context.get_start_method", cite="multiprocessing.context.BaseContext.get_start_method: returns the name of the start method; pure")
 c.param("self", T.Ref("Context")).returns(T.Str).modifies().is_pure()
+
+
+# =========================================================================
+# configuration of the host as ghost constants (never modified): the
+# quantifier "for all configurations" of C17 ranges over them
+def _impl(key, cite=""):
+    """Register a trusted external whose behaviour is given by a Python
+    function over the symbolic state (listed like any other assumption)."""
+    def deco(fn):
+        c = S.ext(key, cite=cite)
+        c.impl = lambda eng, st, self_v, args, kwargs, node, fn=fn: fn(eng, st, self_v, args, kwargs, node)
+        return fn
+    return deco
+
+
+S.ghost("cfg_aff", T.IntS, "size of os.sched_getaffinity(0)")
+S.ghost("cfg_sched_raises", T.BoolS, "os.sched_getaffinity raises NotImplementedError")
+S.ghost("cfg_psutil_aff", T.IntS, "size of psutil.Process().cpu_affinity()")
+S.config_hasattr["os.sched_getaffinity"] = z3.Bool("cfg!hasattr:os.sched_getaffinity")
+S.config_hasattr["psutil.Process.cpu_affinity"] = z3.Bool("cfg!hasattr:psutil.Process.cpu_affinity")
+S.optional_modules["psutil"] = True
+
+c = S.ext("os.cpu_count", cite="os.cpu_count(): 'Return the number of logical CPUs in the system. Returns None if undetermined.'")
+c.returns(T.Opt(T.Int)).ensures("nonneg", "is_none(result) or the(result) >= 0").modifies().is_pure()
+
+c = S.ext("os.sched_getaffinity", cite="os.sched_getaffinity(pid): set of CPUs the process is restricted to (non-empty); may be unavailable")
+c.param("pid", T.Int).returns(T.Obj).modifies()
+c.ensures("size", "len(result) == G.cfg_aff and G.cfg_aff >= 1 and not G.cfg_sched_raises")
+c.may_raise.append(("NotImplementedError", "G.cfg_sched_raises"))
+
+S.cls("psutil.Process", {"pid": T.Int}, external=True)
+c = S.ext("psutil.Process", cite="psutil.Process(pid=None): handle on a process")
+c.param("pid", T.Obj, default=NONE).returns(T.Ref("psutil.Process"), fresh=True).modifies()
+c = S.ext("psutil.Process.cpu_affinity", cite="psutil.Process.cpu_affinity(): list of eligible CPUs (non-empty)")
+c.param("self", T.Ref("psutil.Process")).returns(T.Obj).modifies()
+c.ensures("size", "len(result) == G.cfg_psutil_aff and G.cfg_psutil_aff >= 1")
+
+c = S.ext("os.path.exists", cite="os.path.exists(path): pure predicate of the file system (assumed stable during the call)")
+c.param("path", T.Str).returns(T.Bool).modifies().is_pure()
+
+# files: content is a pure function of the path
+S.cls("File", {"path": T.Str, "fd": T.Int, "closed": T.Bool}, external=True)
+_file_text = z3.Function("file_text", T.StrS, T.StrS)
+S.spec_funcs["file_text"] = lambda eng, st, p: VStr(_file_text(p.t))
+
+
+@_impl("builtins.open", cite="open(path): text file object; its read() returns the content (a function of the path)")
+def _open(eng, st, self_v, args, kwargs, node):
+    from pyvc.values import VRef
+    path = args[0]
+    f = st.new_obj("File")
+    if isinstance(path, VStr):
+        st.write_field(f, "path", path)
+        st.write_field(f, "fd", VInt(-1))
+    else:
+        st.write_field(f, "fd", path)
+    st.write_field(f, "closed", VBool(False))
+    st.emit("open", [f, path], eng.site(node))
+    return [eng.val(st, f)]
+
+
+@_impl("File.__enter__", cite="file objects are their own context managers")
+def _fenter(eng, st, self_v, args, kwargs, node):
+    return [eng.val(st, self_v)]
+
+
+@_impl("File.__exit__", cite="file.__exit__ closes the file and propagates exceptions")
+def _fexit(eng, st, self_v, args, kwargs, node):
+    st.write_field(self_v, "closed", VBool(True))
+    st.emit("close_file", [self_v], eng.site(node))
+    return [eng.val(st, VBool(False))]
+
+
+@_impl("File.read", cite="file.read(): whole content")
+def _fread(eng, st, self_v, args, kwargs, node):
+    p, _ = st.read_field(self_v, "path")
+    return [eng.val(st, VStr(_file_text(p.t)))]
+
+
+@_impl("math.ceil", cite="math.ceil(x): smallest integer >= x.  A-float: q/p of two ints is taken as the exact rational")
+def _ceil(eng, st, self_v, args, kwargs, node):
+    from pyvc.values import VReal
+    v = args[0]
+    if isinstance(v, VInt):
+        return [eng.val(st, v)]
+    t = v.t
+    # ceil(ToReal(a) / ToReal(b)) on integers: exact integer ceiling
+    if z3.is_app(t) and t.decl().kind() == z3.Z3_OP_DIV:
+        a, b = t.children()
+        if z3.is_app(a) and a.decl().kind() == z3.Z3_OP_TO_REAL and z3.is_app(b) and b.decl().kind() == z3.Z3_OP_TO_REAL:
+            ai, bi = a.children()[0], b.children()[0]
+            eng.abstractions.add("math.ceil(q / p) on integers is the mathematical ceiling (A-float)")
+            pos = -((-ai) / bi)       # b > 0
+            neg = -(ai / (-bi))       # b < 0: ceil(a/b) = ceil((-a)/(-b)) = -floor(a/(-b))
+            return [eng.val(st, VInt(z3.If(bi > 0, pos, neg)))]
+    return [eng.val(st, VInt(-z3.ToInt(-t)))]
+
+
+# environment --------------------------------------------------------------
+from pyvc.values import VRef as _VRef
+_env_has = z3.Function("env_has", T.StrS, T.BoolS)
+_env_val = z3.Function("env_val", T.StrS, T.StrS)
+S.cls("os.Environ", {}, external=True)
+S.ext_consts["os.environ"] = _VRef(z3.IntVal(-1001), "os.Environ")
+S.spec_funcs["env_has"] = lambda eng, st, k: VBool(_env_has(k.t))
+S.spec_funcs["env_val"] = lambda eng, st, k: VStr(_env_val(k.t))
+
+
+@_impl("os.Environ.get", cite="os.environ.get(key, default): mapping lookup; the environment is a fixed map during the call")
+def _env_get(eng, st, self_v, args, kwargs, node):
+    key = args[0]
+    default = args[1] if len(args) > 1 else NONE
+    out = []
+    for b, s in eng.branch(st, _env_has(key.t)):
+        out.append(eng.val(s, VStr(_env_val(key.t)) if b else default))
+    return out
+
+
+@_impl("os.Environ.__getitem__", cite="os.environ[key]: KeyError when absent")
+def _env_getitem(eng, st, self_v, args, kwargs, node):
+    key = args[0]
+    out = []
+    for b, s in eng.branch(st, _env_has(key.t)):
+        out.append(eng.val(s, VStr(_env_val(key.t))) if b else eng.raise_new(s, "KeyError"))
+    return out
+
+
+S.classes["os.Environ"].contains = lambda eng, ref, x, st: _env_has(x.t)
+
+c = S.ext("warnings.warn", cite="warnings.warn(message, category=UserWarning): issues a warning. A-warn: warnings are not turned into errors")
+c.param("message", T.Obj).param("category", T.Obj, default=NONE).param("stacklevel", T.Obj, default=NONE)
+c.event("warn", "message").modifies()
+S.assumption("A-warn", "warnings.warn does not raise (the process does not run with -W error)")
+
+c = S.ext("traceback.print_tb", cite="traceback.print_tb: prints, no other effect")
+c.param("tb", T.Obj).modifies()
+
+S.cls("CompletedProcess", {"stdout": T.Str, "returncode": T.Int}, external=True)
+c = S.ext("subprocess.run", cite="subprocess.run(...): runs a command; may raise OSError/SubprocessError (any Exception)")
+c.param("args", T.Obj).kwargs("kw")
+c.returns(T.Ref("CompletedProcess"), fresh=True).modifies()
+c.may_raise.append(("Exception", None))
